@@ -225,9 +225,11 @@ def seal_extra(prop, tier, seed):
             for k in range(len(opt) + 1):
                 for sub in itertools.combinations(opt, k):
                     for wr in (True, False):
-                        ops.append(dict(op="Rec", t=t, present=list(sub), wrapper=wr))
+                        for ws in (False, True):
+                            ops.append(dict(op="Rec", t=t, present=list(sub), wrapper=wr, withState=ws))
         for n in ("authorize", "token", "rotate"):
-            ops.append(dict(op="Flow", name=n))
+            for ws in (False, True):
+                ops.append(dict(op="Flow", name=n, withState=ws))
         out.append(dict(id="x12_matrix", ops=ops))
     return out
 
